@@ -171,3 +171,40 @@ def fd_check(metric, P, h=1e-3):
         e1 = max(e1, float(np.max(np.abs(dt_exact(gfun, 0.0, h) - dg[c]))))
         e2 = max(e2, float(np.max(np.abs(dt_exact(dgfun, 0.0, h) - ddg[c]))))
     return e1, e2
+
+
+def bssn_exact(ex):
+    """Exact conformal (BSSNOK) quantities from the exact spatial metric and
+    its first/second derivatives (textbook formulas, Alcubierre 2.8)."""
+    gam, gamu = ex["gamma"], ex["gammaup"]
+    dgam = ex["dg"][1:, 1:, 1:]            # [k,i,j]
+    ddgam = ex["ddg"][1:, 1:, 1:, 1:]      # [k,l,i,j]
+    nd = gam.ndim - 2
+    d3 = np.eye(3).reshape((3, 3) + (1,) * nd)
+    phi = np.log(ex["gammadet"]) / 12
+    dphi = np.einsum('ij...,kij...->k...', gamu, dgam) / 12
+    dgamu = -np.einsum('ia...,jb...,lab...->lij...', gamu, gamu, dgam)
+    ddphi = (np.einsum('lij...,kij...->kl...', dgamu, dgam)
+             + np.einsum('ij...,klij...->kl...', gamu, ddgam)) / 12
+    gt = np.exp(-4 * phi) * gam
+    gtu = np.exp(4 * phi) * gamu
+    Gt = ex["G3"] - 2 * (np.einsum('ki...,j...->kij...', d3, dphi)
+                         + np.einsum('kj...,i...->kij...', d3, dphi)
+                         - np.einsum('ij...,kl...,l...->kij...', gam, gamu,
+                                     dphi))
+    Gti = np.einsum('jk...,ijk...->i...', gtu, Gt)
+    DDphi = ddphi - np.einsum('kij...,k...->ij...', Gt, dphi)
+    Rphi = (-2 * DDphi
+            - 2 * gt * np.einsum('kl...,kl...->...', gtu, DDphi)
+            + 4 * np.einsum('i...,j...->ij...', dphi, dphi)
+            - 4 * gt * np.einsum('kl...,k...,l...->...', gtu, dphi, dphi))
+    Rt = ex["s_Ric"] - Rphi
+    K = ex["K"]
+    trK = ex["Ktrace"]
+    Ad = K - gam * trK / 3
+    return dict(phi=phi, psi=np.exp(phi), dphi=dphi, ddphi=ddphi,
+                gammadown3_bssnok=gt, gammaup3_bssnok=gtu,
+                s_Gamma_udd3_bssnok=Gt, s_Gamma_bssnok=Gti,
+                s_Ricci_down3_phi=Rphi, s_Ricci_down3_bssnok=Rt,
+                s_RicciS_bssnok=np.einsum('ij...,ij...->...', gtu, Rt),
+                Adown3=Ad, Adown3_bssnok=np.exp(-4 * phi) * Ad)
